@@ -225,8 +225,9 @@ def _chunks_by_region(items, size):
         groups.setdefault(_region(it) or "", []).append(it)
     out = []
     for g in sorted(groups):
-        for k in range(0, len(groups[g]), size):
-            out.append(groups[g][k:k + size])
+        n = size if g == "" else 1          # inside a listed region: one pair per case, so that known() and the model comparison are per pair
+        for k in range(0, len(groups[g]), n):
+            out.append(groups[g][k:k + n])
     return out
 
 
@@ -304,13 +305,16 @@ def cases(tier, seed):
         for chunk in _chunks_by_region(items, 150):
             out.append({"stream": "instants", "fn": "instants", "args": [li, loc, chunk]})
     # 6b. pairs of instants written in DIFFERENT zones (both operands are compared in UTC), second occurrences of repeated wall times
-    xz = []
+    xz_det, xz = [], []
     for z in NEG_ODD:
         for z2 in ("UTC", "Asia/Kolkata", "Europe/Paris", 50400):
             for span in (0, 10, 61, 3000, 18060, 90000, 4 * 86400 + 7):
-                xz.append([[2020, 6, 15, 14, 30, 0], span, z, (len(xz) // 3) % 2, 0, z2])
-                xz.append([[2009, 1, 31, 23, 45, 10], span, z2, (len(xz) // 3) % 2, len(xz) % 2, z])
-    xz += _listed_witnesses()
+                xz_det.append([[2020, 6, 15, 14, 30, 0], span, z, (len(xz_det) // 3) % 2, 0, z2])
+                xz_det.append([[2009, 1, 31, 23, 45, 10], span, z2, (len(xz_det) // 3) % 2, len(xz_det) % 2, z])
+    wit = _listed_witnesses()
+    en = locs.index("en") if "en" in locs else 0
+    for it in xz_det + wit:
+        out.append({"stream": "instants-xz", "fn": "instants", "args": [en, locs[en], [it]]})
     for _ in range(500 if tier == "quick" else 6000):
         st = [rnd.randrange(1900, 2090), rnd.randrange(1, 13), rnd.choice([1, 1, 2, 15, 27, 28, rnd.randrange(1, 29)]), rnd.choice([0, 0, 1, 5, 12, 22, 23, 23]),
               rnd.choice([0, 1, 29, 30, 31, 59, rnd.randrange(60)]), rnd.choice([0, 1, 30, 59, rnd.randrange(60)])]
@@ -320,7 +324,7 @@ def cases(tier, seed):
         z2 = rnd.choice([z for z in XZONES if z != z1])
         xz.append([st, span, z1, rnd.choice([0, 1]), rnd.choice([0, 0, 1]), z2])
     for li, loc in enumerate(locs):
-        mine = xz if loc == "en" else _listed_witnesses() + rnd.sample(xz, 40 if tier == "quick" else 400)
+        mine = xz if loc == "en" else [wit[(li + k) % len(wit)] for k in (0, 3, 6)] + rnd.sample(xz_det, 6) + rnd.sample(xz, 40 if tier == "quick" else 400)
         for chunk in _chunks_by_region(mine, 150):
             out.append({"stream": "instants-xz", "fn": "instants", "args": [li, loc, chunk]})
     # 7. real Duration objects (integer arguments) + glue (default locale, aliases, now)
